@@ -48,6 +48,11 @@ type c07Prof struct {
 	Extra int `json:"extra,omitempty"`
 	// Aslr: the mapping is loaded Aslr*0x100000 higher (same build id: the mappings must merge)
 	Aslr int `json:"aslr,omitempty"`
+	// Hom > 0: homonym functions inside this profile (and against members with Hom 0): distinct
+	// functions at different addresses that agree on every key field but one — same name, system
+	// name and start line in ANOTHER FILE (locations 11 and the inlined line of 9), same name and
+	// file with another start line (location 8), same name with another system name (caller line of 10).
+	Hom int `json:"hom,omitempty"`
 }
 
 // c07Case is the self-contained replay form of one case.
@@ -61,7 +66,7 @@ type c07Case struct {
 	Normalize bool       `json:"normalize,omitempty"`
 	Index     string     `json:"sample_index,omitempty"` // sample type name
 	Ratios    [][2]int64 `json:"ratios,omitempty"`       // scalen: num/den per column
-	Gran      string     `json:"granularity,omitempty"`  // "" (functions) | lines | files | addresses
+	Gran      string     `json:"granularity,omitempty"`  // "" (functions) | filefunctions | lines | files | addresses
 	// kind "many": Sources/Bases hold the distinct profiles, the plans say which one stands at each
 	// position of the (long) source and base lists
 	Plan     []int `json:"plan,omitempty"`
@@ -165,23 +170,34 @@ func c07Factor(u string) int64 {
 }
 
 type c07LineSpec struct {
-	name, file  string
-	start, line int64
+	name, sys, file string
+	start, line     int64
 }
 
 // c07LocLines: what profile variant (build b, symbolization sym) says about universe location j;
 // nil = no symbol information.
-func c07LocLines(j, b, sym int) []c07LineSpec {
+func c07LocLines(j, b, sym, hom int) []c07LineSpec {
 	var out []c07LineSpec
 	for k, f := range c07LocFuncs[j] {
-		ls := c07LineSpec{name: c07FuncName(f), file: fmt.Sprintf("src/f%d.go", f), start: int64(10*f + 1 + 100*b), line: int64(10*f + 2 + j + k + 103*b)}
+		ls := c07LineSpec{name: c07FuncName(f), sys: c07FuncName(f), file: fmt.Sprintf("src/f%d.go", f), start: int64(10*f + 1 + 100*b), line: int64(10*f + 2 + j + k + 103*b)}
 		if b > 0 {
 			ls.file = fmt.Sprintf("build%d/src/f%d.go", b, f)
+		}
+		if hom > 0 {
+			switch {
+			case j == 11 || (j == 9 && k == 0):
+				ls.file = "lib/" + ls.file
+			case j == 8:
+				ls.start += 7
+			case j == 10 && k == 1:
+				ls.sys = "_Z" + ls.name
+			}
 		}
 		if sym > 0 {
 			switch (j + sym) % 4 {
 			case 1:
 				ls.name += fmt.Sprintf(".v%d", sym)
+				ls.sys = ls.name
 			case 2:
 				ls.line += int64(50 * sym)
 			case 3:
@@ -251,18 +267,18 @@ func c07Build(a *c07Prof, shift int) *profile.Profile {
 		}
 	}
 	type fkey struct {
-		name, file string
-		start      int64
+		name, sys, file string
+		start           int64
 	}
 	fns := map[fkey]*profile.Function{}
 	var fkeys []fkey
 	locs := make([]*profile.Location, nl)
 	for _, j := range js {
 		l := &profile.Location{Mapping: m, Address: mstart + uint64(j)*16 + uint64(b)*0x200}
-		for _, ls := range c07LocLines(j, b, a.Sym) {
-			k := fkey{ls.name, ls.file, ls.start}
+		for _, ls := range c07LocLines(j, b, a.Sym, a.Hom) {
+			k := fkey{ls.name, ls.sys, ls.file, ls.start}
 			if fns[k] == nil {
-				fns[k] = &profile.Function{Name: ls.name, SystemName: ls.name, Filename: ls.file, StartLine: ls.start}
+				fns[k] = &profile.Function{Name: ls.name, SystemName: ls.sys, Filename: ls.file, StartLine: ls.start}
 				fkeys = append(fkeys, k)
 			}
 			l.Line = append(l.Line, profile.Line{Function: fns[k], Line: ls.line})
@@ -354,7 +370,7 @@ func (run *c07Run) abstract(p *profile.Profile) (*c07Prof, []bool, error) {
 				if ln.Function == nil {
 					return nil, nil, fmt.Errorf("line without function")
 				}
-				parts = append(parts, fmt.Sprintf("%s;%s;%d;%d", ln.Function.Name, ln.Function.Filename, ln.Function.StartLine, ln.Line))
+				parts = append(parts, fmt.Sprintf("%s;%s;%s;%d;%d", ln.Function.Name, ln.Function.SystemName, ln.Function.Filename, ln.Function.StartLine, ln.Line))
 				nodes = append(nodes, t.fnID(ln.Function.Name))
 			}
 			if len(l.Line) == 0 {
@@ -430,7 +446,7 @@ func runC07(c *Ctx) {
 	c.Res.Rule = "CLI stream: tuples of 1-3 source and 0-2 base profiles over a shared universe of 12 locations/8 functions with overlapping stacks, " +
 		"permuted/partially overlapping sample types, units drawn per profile from one family (bytes..gb, ns..s, count), zeros in columns, |physical value| <= 2^46; " +
 		"modes plain/-base/-diff_base x -normalize x sample_index; strategies: random, self-difference, self-difference with converted units, zero next to unscaled non-zero; " +
-		"in half of the non-self-difference tuples the profiles come from different BUILDS: function/location/mapping ids, function start lines and file names, line numbers, addresses, mapping range/build id/file all differ, only names agree (entries must still combine by name); in 45% they are the SAME binary symbolized differently (same mapping and addresses; function renamed / other line / other file+start line / no symbols at an address); " +
+		"in half of the non-self-difference tuples the profiles come from different BUILDS: function/location/mapping ids, function start lines and file names, line numbers, addresses, mapping range/build id/file all differ, only names agree (entries must still combine by name); in 45% they are the SAME binary symbolized differently (same mapping and addresses; function renamed / other line / other file+start line / no symbols at an address); in 30% HOMONYM functions within and across members (same name+system name+start line in another file, same name+file with another start line, same name with another system name, at different addresses; always reported at -files/-filefunctions/-lines); " +
 		"independently in 60% the members have different table sizes (only used locations + 0-7 unused), id schemes (dense rotated, sparse/huge unsorted, shifted) and ASLR-shifted mappings; 1-5 sources; reports at functions (68%), lines, files or addresses granularity; " +
 		"separate streams: large (|v|>2^53) and normalize-unaligned; many-sources stream (in-process driver.PProf, own FlagSet): source and base LISTS of k*128+{-2..2} tiny profiles (k=1..3), same oracles. In-process streams: ScaleN (integer/dyadic/zero ratios), Scale(-1) float path, Normalize, CompatibilizeSampleTypes, ScaleProfiles. " +
 		"non-trivial = CLI case with >=2 profiles where at least two profiles share a stack, or in-process case with >=1 sample and a ratio != 1 / a reordering / a unit change; distinct by case JSON"
